@@ -3,6 +3,7 @@ import DM.Drv.C06
 import DM.Drv.C07
 import DM.Drv.C08
 import DM.Drv.Enc
+import DM.Drv.Dec
 open DM.Drv
 
 def dispatch (args : List String) : String :=
@@ -19,6 +20,9 @@ def dispatch (args : List String) : String :=
   | some r => r
   | none =>
   match encOp args with
+  | some r => r
+  | none =>
+  match decOp args with
   | some r => r
   | none => "bad-op"
 
